@@ -21,7 +21,10 @@ def generate(ctx):
     cases = []
     for i in range(n):
         names = ctx.rng.choice(["plain", "plain", "int"])
-        spec = falib.rand_fa(ctx.rng, names=names, max_states=4)
+        if i % 12 == 7:      # an automaton without any input symbol: every transition is an epsilon move
+            spec = falib.rand_fa(ctx.rng, kind="enfa", profile="epsonly", names=names, max_states=4)
+        else:
+            spec = falib.rand_fa(ctx.rng, names=names, max_states=4)
         cases.append({"op": "to_regex", "fa": spec})
     return cases
 
